@@ -480,7 +480,7 @@ Qed.
 
 Lemma bp_fold_other_piece p ch j : ~ In j ch -> forall s p', bp_get (reserve_all p s ch) p' j = bp_get s p' j.
 Proof.
-  induction ch as [|i ch IH]; intros Hn s p'; cbn; auto.
+  unfold reserve_all. induction ch as [|i ch IH]; intros Hn s p'; cbn [fold_left]; auto.
   rewrite IH by (intros H; apply Hn; now right). rewrite bp_add.
   destruct (N.eqb i j) eqn:E; [|now rewrite andb_false_r].
   apply N.eqb_eq in E. subst. exfalso. apply Hn. now left.
@@ -550,11 +550,17 @@ Lemma failed_entry_spec c t r i p x :
    (x = code_invalid /\ r_status r = SInvalid)).
 Proof.
   unfold failed_entry, code_expired, code_unsent, code_invalid.
-  destruct (r_status r) eqn:S; [destruct (expired c t r) eqn:E|..]; split;
-    try (intros [= <- <- <-]; intuition congruence);
-    try (intros [<- [<- [[-> _]|[[-> H]|[-> H]]]]]; congruence);
-    try discriminate.
-  - intros [_ [_ [[_ [_ H]]|[[_ H]|[_ H]]]]]; congruence.
+  destruct (r_status r) eqn:S; [destruct (expired c t r) eqn:E|..].
+  - split.
+    + intros [= <- <- <-]. intuition auto.
+    + intros [<- [<- [[-> _]|[[_ H]|[_ H]]]]]; [reflexivity|discriminate|discriminate].
+  - split; [discriminate|]. intros [_ [_ [[_ [_ H]]|[[_ H]|[_ H]]]]]; discriminate.
+  - split.
+    + intros [= <- <- <-]. intuition auto.
+    + intros [<- [<- [[_ [H _]]|[[-> _]|[_ H]]]]]; [discriminate|reflexivity|discriminate].
+  - split.
+    + intros [= <- <- <-]. intuition auto.
+    + intros [<- [<- [[_ [H _]]|[[_ H]|[-> _]]]]]; [discriminate|discriminate|reflexivity].
 Qed.
 
 (* the report lists exactly the live requests (of the flat log) that expired, were marked
